@@ -7,7 +7,7 @@ func VerifHarness_C11_Histogram() {
 	if verifBool("warm") {
 		h.Observe(3)
 	}
-	verifGuard("Histogram", h, &h.mu)
+	verifGuardNamed("Histogram", h, "mu")
 	switch verifIntRange("op", 0, 4) {
 	case 0:
 		v := verifFloat64("v")
@@ -23,7 +23,7 @@ func VerifHarness_C11_Histogram() {
 	case 4:
 		_ = h.Percentile(50)
 	}
-	verifAssert(verifHeld(&h.mu) == 0, "C11: every path releases the lock it took")
+	verifAssert(verifHeldNamed(h, "mu") == 0, "C11: every path releases the lock it took")
 	verifReach("called")
 }
 
@@ -60,7 +60,7 @@ func VerifHarness_C11_Collector() {
 		mc.Counter("n", tags)
 		mc.Histogram("h", nil)
 	}
-	verifGuard("Collector", mc, &mc.mu)
+	verifGuardNamed("Collector", mc, "mu")
 	switch verifIntRange("op", 0, 4) {
 	case 0:
 		mc.Counter("n", tags).Inc()
@@ -73,6 +73,6 @@ func VerifHarness_C11_Collector() {
 	case 4:
 		_ = mc.GetAllMetrics()
 	}
-	verifAssert(verifHeld(&mc.mu) == 0, "C11: every path releases the lock it took")
+	verifAssert(verifHeldNamed(mc, "mu") == 0, "C11: every path releases the lock it took")
 	verifReach("called")
 }
